@@ -3,6 +3,7 @@
 From Coq Require Extraction ExtrOcamlBasic.
 From Coq Require Import ZArith List.
 From VBase Require Import FieldOps ZpOps.
+From VGen Require Import FftIndex.
 From VModel Require Import FFT.
 Extraction Language OCaml.
 
@@ -19,4 +20,8 @@ Separate Extraction
   degree_of infer_degree
   evaluate_columns_over interpolate_columns get_evaluation_offsets
   rows_ops segment_new build_segments transpose from_segments evaluate_polys_over rm_num_rows rm_get
-  peval fpow fpow_N dft fft_rec spec_eval_offset spec_interpolate spec_interpolate_offset.
+  peval fpow fpow_N dft fft_rec spec_eval_offset spec_interpolate spec_interpolate_offset
+  (* checked variant (explicit panics) and the rs2v-generated permute_index *)
+  fft_in_place_c permute_c get_twiddles_c get_inv_twiddles_c evaluate_poly_c evaluate_poly_with_offset_c
+  interpolate_poly_c interpolate_poly_with_offset_c infer_degree_c
+  fftidx_permute_index fftidx_permute_index_ok.
